@@ -1,0 +1,35 @@
+/**
+ * Verification hooks. Everything in this header is compiled only when QUILL_VERIF is defined;
+ * with the guard off the header is empty and the library is unchanged.
+ *
+ * A yield point hands control to an externally installed callback at a named place inside the
+ * backend worker, so that a test harness that owns the backend thread (ManualBackendWorker) can
+ * run frontend operations at exactly that place. No control flow of the library is changed.
+ */
+
+#pragma once
+
+#if defined(QUILL_VERIF)
+
+  #include "quill/core/Attributes.h"
+
+QUILL_BEGIN_NAMESPACE
+
+namespace detail
+{
+/** installed by the harness; nullptr means "no-op" */
+inline void (*verif_yield)(int point) = nullptr;
+} // namespace detail
+
+QUILL_END_NAMESPACE
+
+  #define QUILL_VERIF_YIELD(point)                                                                 \
+    do                                                                                             \
+    {                                                                                              \
+      if (quill::detail::verif_yield)                                                              \
+      {                                                                                            \
+        quill::detail::verif_yield(point);                                                         \
+      }                                                                                            \
+    } while (0)
+
+#endif
